@@ -24,8 +24,10 @@ NCPU = os.cpu_count() or 4
 import props  # noqa: E402  (registry of properties)
 
 ENV = dict(os.environ)
-ENV.update({"CARGO_NET_OFFLINE": "true", "CARGO_TERM_COLOR": "never"})
-ENV.pop("RUSTFLAGS", None)
+ENV.update({"CARGO_NET_OFFLINE": "true", "CARGO_TERM_COLOR": "never", "CARGO_TARGET_DIR": TARGET})
+# nothing inherited from the caller may redirect or alter the build of the harness
+for _k in ("RUSTFLAGS", "CARGO_BUILD_TARGET_DIR", "CARGO_BUILD_TARGET", "CARGO_ENCODED_RUSTFLAGS", "RUSTC_WRAPPER"):
+    ENV.pop(_k, None)
 
 
 def log(*a):
